@@ -34,6 +34,16 @@ static unsigned G_frees;
 #define VERIF_ON_FREE(p) (G_frees++)
 #include "verif_models.h"
 #include "node_common.h"
+#ifdef OLC_SPLIT_CTOR
+/* olc_db: construction is two real calls - the header-only constructor basic_inode_TO(db&, const source&) made by create(), then the copy
+ * routine basic_inode_TO::init(...) called by the olc wrapper after the locks are taken.  The contract below is on their composition. */
+typedef HDR_a0 CTOR_a0; typedef HDR_a1 CTOR_a1; typedef HDR_a2 CTOR_a2; typedef INIT_a3 CTOR_a3;
+#if TO == FROM + 1
+#define CTOR(dst, db, src, up, depth) do { HDR((dst), (db), (src)); INIT((INIT_a0)(dst), (INIT_a1)(db), (INIT_a2)(src), (up), (depth)); } while (0)
+#else
+#define CTOR(dst, db, src, h) do { HDR((dst), (db), (src)); INIT((INIT_a0)(dst), (INIT_a1)(db), (INIT_a2)(src), (h)); } while (0)
+#endif
+#endif
 typedef __typeof__(*(SRC_FIND_a0)0) SRC_T; typedef __typeof__(*(DST_FIND_a0)0) DST_T;
 static unsigned G_ldel, G_idel; static void *G_ldel_arg, *G_idel_arg;
 void LEAF_DEL(LEAF_DEL_a0 self, LEAF_DEL_a1 leaf) { G_ldel++; G_ldel_arg = leaf; }
